@@ -544,7 +544,7 @@ def emit_all(data):
     # ... tied to the full rows chunk by chunk, and the C06 table theorem over it
     if not info["posc"]["alias"]:
         ucs = info["posc"]["unit_chunks"]
-        core_thms, core_mods, c06_thms, c06_mods = [], [], [], []
+        core_thms, core_mods, c06_thms, c06_mods, idx_mods = [], [], [], [], []
         for (kn, km), (un, um) in zip(c06_chunks, ucs):
             tn = "%s_core" % kn
             mod = "ThmCore%s" % km
@@ -553,17 +553,23 @@ def emit_all(data):
                    "theorem %s : %s.map CRow.core = %s.map UnitRow.core := by decide +kernel\nend Barril.Gen\n" % (km, um, tn, kn, un))
             core_thms.append(tn)
             core_mods.append(mod)
-            mod = "ThmC06%s" % km
+            mod = "ThmIdx%s" % km
             em.add(mod + ".lean",
-                   "import Barril.Gen.PoscTree\nimport Barril.Gen.PoscBases\nimport Barril.Gen.KnownBad\nimport Barril.Gen.%s\n"
+                   "import Barril.Gen.PoscTree\nimport Barril.Gen.PoscBases\nimport Barril.Gen.%s\n"
                    "set_option maxRecDepth 100000\nnamespace Barril.Gen\nopen Barril\n"
                    "/-- every row of the chunk is found in the index -/\n"
                    "theorem %s_idx : %s.all (fun c => poscTree.find c.sym == some c) = true := by decide +kernel\n"
                    "/-- the quantity type of every row has an entry in the base index -/\n"
                    "theorem %s_bas : %s.all (fun c => (lookB c.qtype poscBases).isSome) = true := by decide +kernel\n"
+                   "end Barril.Gen\n" % (km, kn, kn, kn, kn))
+            idx_mods.append(mod)
+            mod = "ThmC06%s" % km
+            em.add(mod + ".lean",
+                   "import Barril.Gen.PoscTree\nimport Barril.Gen.PoscBases\nimport Barril.Gen.KnownBad\nimport Barril.Gen.%s\n"
+                   "set_option maxRecDepth 100000\nnamespace Barril.Gen\nopen Barril\n"
                    "/-- the C06 row predicate, evaluated through the index -/\n"
                    "theorem %s_c06 : %s.all (compoundOkOrKnownT poscTree poscBases c06KnownBad) = true := by decide +kernel\n"
-                   "end Barril.Gen\n" % (km, kn, kn, kn, kn, kn, kn))
+                   "end Barril.Gen\n" % (km, kn, kn))
             c06_thms.append(kn)
             c06_mods.append(mod)
         em.add("ThmCorePosc.lean",
@@ -578,7 +584,7 @@ def emit_all(data):
         # everything stored in the index is a row of the table (per subtree, then the inner nodes)
         sub_mods = []
         for tn_ in c06_subtrees:
-            mod = "ThmC06Sub%s" % tn_[5:]
+            mod = "ThmIdxSub%s" % tn_[5:]
             em.add(mod + ".lean",
                    "import Barril.Gen.PoscTree\nimport Barril.Gen.PoscCompact\nset_option maxRecDepth 100000\n"
                    "namespace Barril.Gen\nopen Barril\n"
@@ -587,7 +593,7 @@ def emit_all(data):
             sub_mods.append(mod)
         base_mods = []
         for bn, bm in c06_bases:
-            mod = "ThmC06%s" % bm
+            mod = "ThmIdx%s" % bm
             em.add(mod + ".lean",
                    "import Barril.Gen.PoscBases\nimport Barril.Gen.PoscCompact\nset_option maxRecDepth 100000\n"
                    "namespace Barril.Gen\nopen Barril\n"
@@ -595,9 +601,8 @@ def emit_all(data):
                    "end Barril.Gen\n" % (bn, bn))
             base_mods.append(mod)
         hyps = " ".join("(h%d : %s.all P = true)" % (i, kn) for i, (kn, _km) in enumerate(c06_chunks))
-        em.add("ThmC06Posc.lean",
-               "".join("import Barril.Gen.%s\n" % m for m in c06_mods + sub_mods + base_mods) +
-               "import Barril.Proofs.CompoundIndexLemmas\n"
+        em.add("ThmIdxPosc.lean",
+               "".join("import Barril.Gen.%s\n" % m for m in idx_mods + sub_mods + base_mods) +
                "set_option linter.unusedSimpArgs false\nset_option maxRecDepth 100000\nnamespace Barril.Gen\nopen Barril\n"
                "theorem poscC_all_of_chunks (P : CRow → Bool) %s : poscC.all P = true := by\n"
                "  simp only [poscC, List.all_append, %s, Bool.and_self]\n"
@@ -613,19 +618,22 @@ def emit_all(data):
                "/-- the first-listed row of every quantity type is an identity -/\n"
                "theorem poscBases_ident : poscBases.all (fun p => p.2.ident) = true := by decide +kernel\n"
                "theorem poscBases_complete : poscC.all (fun c => (lookB c.qtype poscBases).isSome) = true :=\n"
-               "  poscC_all_of_chunks _ %s\n"
+               "  poscC_all_of_chunks _ %s\nend Barril.Gen\n" % (
+                   hyps, ", ".join("h%d" % i for i in range(len(c06_chunks))),
+                   " ".join(k + "_idx" for k in c06_thms),
+                   ", ".join(t + "_back" for t in c06_subtrees),
+                   ", ".join(bn + "_base" for bn, _bm in c06_bases),
+                   " ".join(k + "_bas" for k in c06_thms)))
+        em.add("ThmC06Posc.lean",
+               "".join("import Barril.Gen.%s\n" % m for m in c06_mods) +
+               "import Barril.Gen.ThmIdxPosc\nimport Barril.Proofs.CompoundIndexLemmas\n"
+               "namespace Barril.Gen\nopen Barril\n"
                "theorem poscC_all_c06_indexed : poscC.all (compoundOkOrKnownT poscTree poscBases c06KnownBad) = true :=\n"
                "  poscC_all_of_chunks _ %s\n"
                "/-- the C06 table theorem, stated through the plain list lookups -/\n"
                "theorem poscC_all_c06 : poscC.all (compoundOkOrKnown poscC c06KnownBad) = true :=\n"
                "  compoundOkOrKnown_of_index poscTree_complete poscTree_sound poscBases_sound poscBases_complete\n"
-               "    poscC_all_c06_indexed\nend Barril.Gen\n" % (
-                   hyps, ", ".join("h%d" % i for i in range(len(c06_chunks))),
-                   " ".join(k + "_idx" for k in c06_thms),
-                   ", ".join(t + "_back" for t in c06_subtrees),
-                   ", ".join(bn + "_base" for bn, _bm in c06_bases),
-                   " ".join(k + "_bas" for k in c06_thms),
-                   " ".join(k + "_c06" for k in c06_thms)))
+               "    poscC_all_c06_indexed\nend Barril.Gen\n" % " ".join(k + "_c06" for k in c06_thms))
     em.add("All.lean", "".join("import Barril.Gen.%s\n" % n[:-5].replace("/", ".") for n in sorted(em.files)
                                 if n != "All.lean"))
     return em
